@@ -170,9 +170,9 @@ def groupTokens (l : Array Char) (u : List Nat) (exp : Nat) : Option (List Strin
 
 /-- one data or summary row. `summary` = the geomean row. -/
 def judgeRow (l : Array Char) (u : List Nat) (ncols : Nat) (rcd : List String) (summary : Bool)
-    (vs : List (Option Nat) := []) : Verdict × List Nat := Id.run do
+    (vs : List (Option Nat) := []) : Verdict × List (Nat × List Nat) := Id.run do
   let mut v : Verdict := {}
-  let mut foots : List Nat := []
+  let mut foots : List (Nat × List Nat) := []
   let label := trimStr (l.toList.take (u.headD 0))
   if label != rcd.headD "" then v := v.merge (failAgree s!"label:{label}")
   if (tokens l (u.getLastD 0) l.size).length > 0 then v := v.merge { layout := some "beyondedge" }
@@ -181,7 +181,7 @@ def judgeRow (l : Array Char) (u : List Nat) (ncols : Nat) (rcd : List String) (
     | none => v := v.merge { layout := some s!"crossrule:{label}:{exp}" }
     | some tsp =>
       let ts := tsp.map (·.1)
-      foots := foots ++ (ts.filter isFootTok).map superVal
+      foots := foots ++ [(exp, (ts.filter isFootTok).map superVal)]
       let tsp := tsp.filter (!isFootTok ·.1)
       let ts := ts.filter (!isFootTok ·)
       let c := startCol exp
@@ -222,7 +222,7 @@ def dedup (l : List String) : List String := l.foldl (fun acc x => if acc.contai
 def sameSet (a b : List String) : Bool := a.all b.contains && b.all a.contains
 
 /-- one table block: text lines, CSV records with their global row numbers, all CSV warnings -/
-def judgeBlock (tl : List String) (cr : List (Nat × List String)) (warns : List (Nat × String)) : Verdict := Id.run do
+def judgeBlock (tl : List String) (cr : List (Nat × List String)) (warns : List (Nat × Nat × String)) : Verdict := Id.run do
   let mut v : Verdict := {}
   -- "key: value" lines in front of the table
   let thdr := tl.takeWhile fun s => !s.toList.contains bar
@@ -269,9 +269,12 @@ def judgeBlock (tl : List String) (cr : List (Nat × List String)) (warns : List
   if trows.length != crows.length + (if wantSummary then 1 else 0) then
     return v.merge (failAgree s!"rows:{trows.length}:{crows.length}")
   let mut foots : List Nat := []
-  for (t, c) in trows.zip (crows.map (·.2)) do
-    let (v', f) := judgeRow t.toList.toArray u ncols c false
-    v := v.merge v'; foots := foots ++ f
+  -- per cell: (CSV row number, logical column, footnote numbers of the text)
+  let mut cellFoots : List (Nat × Nat × List Nat) := []
+  for (t, c) in trows.zip crows do
+    let (v', f) := judgeRow t.toList.toArray u ncols c.2 false
+    v := v.merge v'; foots := foots ++ (f.map (·.2)).flatten
+    cellFoots := cellFoots ++ f.map fun (e, ns) => (c.1, e, ns)
   -- the CSV summary row against the header positions alone (also for one-row tables, where the
   -- text has no geomean row): values only under a centre header or under "vs base"
   for j in List.range csum.length do
@@ -287,7 +290,8 @@ def judgeBlock (tl : List String) (cr : List (Nat × List String)) (warns : List
       | some ts => (ts.find? (·.1 == "vs")).map (·.2.1)
       | none => none
     let (v', f) := judgeRow (trows.getLastD "").toList.toArray u ncols csum true vs
-    v := v.merge v'; foots := foots ++ f
+    v := v.merge v'; foots := foots ++ (f.map (·.2)).flatten
+    cellFoots := cellFoots ++ f.map fun (e, ns) => ((cr.getLast?.map (·.1)).getD 0, e, ns)
   -- warnings: footnotes of the text against the CSV's second stream, as sets of messages
   let defs := tfoot.map fun s =>
     let n := s.toList.takeWhile isSuper
@@ -299,17 +303,39 @@ def judgeBlock (tl : List String) (cr : List (Nat × List String)) (warns : List
   let hi := (cr.getLast?.map (·.1)).getD 0
   -- the text omits the summary row of a one-row table, and with it that row's warnings
   let hi := if wantSummary then hi else hi - 1
-  let cmsgs := dedup ((warns.filter fun w => lo ≤ w.1 && w.1 ≤ hi).map (·.2))
+  let cmsgs := dedup ((warns.filter fun w => lo ≤ w.2.1 && w.2.1 ≤ hi).map (·.2.2))
   if !sameSet tmsgs cmsgs then v := v.merge (failAgree s!"warnings:{tmsgs.length}:{cmsgs.length}")
+  -- per cell: the footnotes of the text cell of (row, column) are the messages the CSV stream
+  -- attaches to the fields of that column group of that row
+  for (rn, e, ns) in cellFoots do
+    let tm := dedup (ns.filterMap fun n => (defs.find? (·.1 == n)).map (·.2))
+    let cm := dedup ((warns.filter fun w => w.2.1 == rn && startCol e ≤ w.1 && w.1 < startCol (e + 1)).map (·.2.2))
+    if !sameSet tm cm then v := v.merge (failAgree s!"warncell:row{rn}:col{e}:{tm.length}:{cm.length}")
+  -- every reference of the CSV stream names a field under a centre header or under "vs base",
+  -- and in a measurement row that field holds the warned value
+  let hiAll := (cr.getLast?.map (·.1)).getD 0
+  for w in warns do
+    if lo ≤ w.2.1 && w.2.1 ≤ hiAll then
+      let j := w.1
+      let isCentre := (List.range ncols).any fun exp => startCol exp == j
+      let isDelta := (List.range ncols).any fun exp => exp > 0 && startCol exp + 2 == j
+      if !(isCentre || isDelta) then v := v.merge (failAgree s!"warnref:row{w.2.1}:field{j}:{unitRec.getD j ""}")
+      else if w.2.1 != hiAll then
+        let rcd := ((cr.find? (·.1 == w.2.1)).map (·.2)).getD []
+        if rcd.getD j "" == "" then v := v.merge (failAgree s!"warnref:row{w.2.1}:field{j}:blank")
   return v
 
-def parseWarn (s : String) : Option (Nat × String) :=
+/-- `<column letters><row>: <message>` → (0-based field index, row, message); the letters are read
+as the code writes them for fields 0..25 (A..Z) and as base-26 digits beyond -/
+def parseWarn (s : String) : Option (Nat × Nat × String) :=
   let cs := s.toList
   let letters := cs.takeWhile Char.isAlpha
   let rest := cs.dropWhile Char.isAlpha
   let ds := rest.takeWhile Char.isDigit
   match rest.dropWhile Char.isDigit with
-  | ':' :: ' ' :: msg => if letters.isEmpty || ds.isEmpty then none else some (digitsVal ds, String.ofList msg)
+  | ':' :: ' ' :: msg =>
+    if letters.isEmpty || ds.isEmpty then none
+    else some (letters.foldl (fun x c => x * 26 + (c.toNat - 65)) 0, digitsVal ds, String.ofList msg)
   | _ => none
 
 def judge (text csv warn : String) : Verdict := Id.run do
